@@ -9,10 +9,10 @@ sys.path.insert(0, "/verif")
 os.environ.setdefault("PYTHONHASHSEED", "0")
 
 LEVEL_TEXT = {
- "C16": "Seeded search over simulated worlds: twin tasks (same block layout; different symmetry, fermionic flags, fusion history, policy) interleaved on the shared metadata caches while the simulator clears/resizes/evicts at op boundaries (real functools.lru_cache) and at every single lookup (instrumented table). Every step must be bit-identical to the task's isolated cold run, cached values must keep their insertion digest, hits must equal recomputation. Sampling, not proof.",
- "C15": "Seeded histories over a pool of live, deliberately aliased tensors with the documented in-place API injected at arbitrary op boundaries and cache/LAPACK faults; byte-level snapshots of ALL live objects before and after every call; sharing measured with numpy.shares_memory. Sampling, not proof.",
+ "C16": "Seeded search over simulated worlds: twin tasks (same block layout; different symmetry, fermionic flags, fusion history, policy) interleaved on the shared metadata caches while the simulator clears/resizes/evicts at op boundaries (real functools.lru_cache) and at every single lookup (instrumented table). Every step must be bit-identical to the task's isolated cold run, cached values must keep their insertion digest, hits must equal recomputation. A quarter of the runs interleave twin MPS tasks (algebra, in-place API, measurements, stepped dmrg_/tdvp_ workers) and a PEPS task (gates, environments, measurements, evolution steps) instead of tensor tasks. Sampling, not proof.",
+ "C15": "Seeded histories over a pool of live, deliberately aliased tensors with the documented in-place API injected at arbitrary op boundaries and cache/LAPACK faults; byte-level snapshots of ALL live objects before and after every call; sharing measured with numpy.shares_memory. Object world drawn per seed: tensors, MPS/MPO (incl. central block, the whole in-place API) or PEPS/environments/two-layer tensors; container methods ending in '_' may change only the receiver and what physically shared memory with it. Sampling, not proof.",
  "C14": "The same seeded program executed under a reference configuration and under disturbed knob schedules (3 tensordot kernels x fusion modes x forced modes, consume_transpose/copy/re-lazy injected at arbitrary points, cache faults); contract_with_unroll against the plain contraction for random admissible paths/optimizers/unroll specs. Differential oracle on legs, charge, dense values. Sampling, not proof.",
- "C02": "Invariant monitor (independent re-derivation of selection rule, ordering, slices, sizes, types, fusion history from public accessors and an independent group-law model; exact zeros outside allowed sectors; total charge predicted by the dense model) evaluated after every step of seeded histories under all knob values and fault kinds. Sampling, not proof.",
+ "C02": "Invariant monitor (independent re-derivation of selection rule, ordering, slices, sizes, types, fusion history from public accessors and an independent group-law model; exact zeros outside allowed sectors; total charge predicted by the dense model) evaluated after every step of seeded histories under all knob values and fault kinds; in 3 of 7 runs the history is over MPS/MPO (incl. stepped dmrg_/tdvp_ workers) or PEPS/environments and the monitor runs on every tensor those containers hold. Sampling, not proof.",
  "C01": "THIN as a simulation target: each op is a pure function of its operands' state. Baseline arm = seeded sampling of operation histories against a dense NumPy reference model op by op (plus cross-check of the four views). Disturbed arm = the same under the other tensordot kernels / fusion modes, cache faults at every lookup and buggify events; only this arm is simulation proper. Both reported separately.",
  "C03": "THIN as a simulation target. Fusion histories (hard/meta/mixtures, depth<=3, pairs fused from legs with equal/overlapping/disjoint sector sets, block()) against an unfused dense shadow and relational identities; incompatible pairs must raise YastnError. Disturbed arm: forced fusion modes, cache faults on the fusion metadata tables, buggify. Sampling, not proof.",
 }
